@@ -33,7 +33,7 @@ INTERFACES = {
 }
 CAPS = ["absent", "below", "at_first", "inside", "at_wf", "at_last", "above", "zero"]
 LM1 = ["absent", "below", "at_first", "above", "zero"]
-ENGS = ["default", "defined", "undefined"]
+ENGS = ["default", "defined", "undefined", "undefined2"]
 
 
 def build_cfg(ik, workers, mv_len, mv_pat, capk, engk, lm1k, quantis):
@@ -75,6 +75,9 @@ def build_cfg(ik, workers, mv_len, mv_pat, capk, engk, lm1k, quantis):
         cfg["simulation"]["ensemble_engines"] = [["engine0"]] + [["engine"]] * max(0, n - 1)
     elif engk == "undefined":
         cfg["simulation"]["ensemble_engines"] = [["engineX"]] + [["engine"]] * max(0, n - 1)
+    elif engk == "undefined2":
+        # the undefined name is not the first engine of its ensemble and not in the first ensemble
+        cfg["simulation"]["ensemble_engines"] = [["engine"]] * max(0, n - 1) + [["engine", "engineX"]]
     return cfg, dict(intf=intf, n=n, workers=workers, moves=moves, cap=cap, lm1=lm1, quantis=quantis, engk=engk)
 
 
@@ -98,7 +101,7 @@ def valid(meta):
         for e in range(1, n):
             if moves[e] == "wf" and not cap > intf[e - 1]:
                 return False, "interface cap leaves a wire-fencing ensemble no room"
-    if meta["engk"] == "undefined":
+    if meta["engk"] in ("undefined", "undefined2"):
         return False, "undefined engine"
     if meta["quantis"] and meta["engk"] == "default":
         return False, "undefined engine"  # quantis selects 'engine0', which this configuration does not define
